@@ -294,7 +294,7 @@ def run_history(rec, case):
             rec.key('%s/%s/%s/%s' % (srv, getattr(s, 'plan', '?'), '+'.join(
                 sorted({c['cause'] for c in R.causes if c['s'] == s.n})),
                 d[0]['reason'] if d else '-'))
-        if rec.evaluations % 211 == 0:
+        if rec.evaluations % 211 == 1:
             rec.sample({'server': srv, 'pi': pi, 'pt': pt,
                         'history': R.witness(25),
                         'events': [(sim.sidn(e['sid']), e['ev'],
